@@ -7,6 +7,7 @@
 From PE2 Require Import Eval Lemmas_Copy Lemmas_DeepCopy Lemmas_Out.
 Require Import Lia.
 Local Open Scope N_scope.
+Ltac okf := first [ exact I | reflexivity ].
 
 (* ------------------------------------------------------------------ what is protected *)
 Definition prim_kind (k : dkind) : bool :=
@@ -86,7 +87,7 @@ Definition writable (id : N) (s : st) : Prop := exists cl, nm_get id (s_cells s)
 Definition ctxkind (c : N) (b : bool) (s : st) : Prop := exists cx, nm_get c (s_ctxs s) = Some cx /\ x_isrec cx = b.
 
 Lemma stable_true : stable (fun _ => True).
-Proof. intros s s' _ _. exact I. Qed.
+Proof. intros s s' _ _. okf. Qed.
 Lemma stable_and F G : stable F -> stable G -> stable (fun s => F s /\ G s).
 Proof. intros HF HG s s' H [A B]. split; [eapply HF|eapply HG]; eauto. Qed.
 Lemma stable_pure (X : Prop) : stable (fun _ => X).
@@ -117,14 +118,19 @@ Proof.
 Qed.
 
 (* ------------------------------------------------------------------ triples *)
+(* the failures a computation may end in: anything but the abort that stands for "a variable holds an object of another class than
+   its type says" (static_cast on the wrong class in the C++) *)
+Definition bad_site (w : string) : bool := String.eqb w "cell payload disagrees with its type".
+Definition ok_fail (f : fail) : Prop := match f with FCrash w => bad_site w = false | _ => True end.
+Definition ok_out {A} (o : outcome A) : Prop := match o with Ok _ => True | Fail f => ok_fail f end.
 Definition tr {A} (P : st -> Prop) (m : M A) (Q : A -> st -> Prop) : Prop :=
   forall s, Inv s -> P s ->
-    Inv (snd (m s)) /\ K s (snd (m s)) /\ match fst (m s) with Ok a => Q a (snd (m s)) | Fail _ => True end.
+    Inv (snd (m s)) /\ K s (snd (m s)) /\ match fst (m s) with Ok a => Q a (snd (m s)) | Fail f => ok_fail f end.
 
 Lemma tr_ret {A} (P : st -> Prop) (a : A) : tr P (ret a) (fun x s => x = a /\ P s).
 Proof. intros s HI HP. cbn. split; [exact HI|]. split; [apply K_refl|auto]. Qed.
-Lemma tr_failm {A} (P : st -> Prop) f (Q : A -> st -> Prop) : tr P (failm f) Q.
-Proof. intros s HI HP. cbn. split; [exact HI|]. split; [apply K_refl|exact I]. Qed.
+Lemma tr_failm {A} (P : st -> Prop) f (Q : A -> st -> Prop) : ok_fail f -> tr P (failm f) Q.
+Proof. intros Hf s HI HP. cbn. split; [exact HI|]. split; [apply K_refl|exact Hf]. Qed.
 Lemma tr_post {A} (P : st -> Prop) (m : M A) (Q Q' : A -> st -> Prop) : tr P m Q -> (forall a s, Q a s -> Q' a s) -> tr P m Q'.
 Proof. intros H HQ s HI HP. destruct (H s HI HP) as [A1 [A2 A3]]. split; [exact A1|]. split; [exact A2|]. destruct (fst (m s)); auto. Qed.
 Lemma tr_pre {A} (P P' : st -> Prop) (m : M A) (Q : A -> st -> Prop) : (forall s, P s -> P' s) -> tr P' m Q -> tr P m Q.
@@ -139,20 +145,33 @@ Proof.
   intros SP Hm Hk s HI HP. unfold bind. destruct (Hm s HI HP) as [A1 [A2 A3]].
   destruct (m s) as [[a|f] s1]; cbn [fst snd] in *.
   - destruct (Hk a s1 A1 (conj (SP _ _ A2 HP) A3)) as [B1 [B2 B3]]. split; [exact B1|]. split; [eapply K_trans; eauto|exact B3].
-  - split; [exact A1|]. split; [exact A2|exact I].
+  - split; [exact A1|]. split; [exact A2|exact A3].
 Qed.
 Lemma tr_catch {A} (P : st -> Prop) (m : M A) (Q : A -> st -> Prop) h : stable P -> tr P m Q -> (forall f m', h f = Some m' -> tr P m' Q) -> tr P (catch m h) Q.
 Proof.
   intros SP Hm Hh s HI HP. unfold catch. destruct (Hm s HI HP) as [A1 [A2 A3]].
   destruct (m s) as [[a|f] s1]; cbn [fst snd] in *; [auto|].
-  destruct (h f) as [m'|] eqn:E; [|cbn; auto].
+  destruct (h f) as [m'|] eqn:E; [|cbn [fst snd]; auto].
   destruct (Hh f m' E s1 A1 (SP _ _ A2 HP)) as [B1 [B2 B3]]. split; [exact B1|]. split; [eapply K_trans; eauto|exact B3].
 Qed.
 
 (* a computation that leaves the state alone *)
 Definition ro {A} (m : M A) : Prop := forall s, snd (m s) = s.
-Lemma tr_ro {A} (P : st -> Prop) (m : M A) : ro m -> tr P m (fun _ s => P s).
-Proof. intros H s HI HP. rewrite (H s). split; [exact HI|]. split; [apply K_refl|]. destruct (fst (m s)); [exact HP|exact I]. Qed.
+(* a computation that does not end in the excluded abort *)
+Definition nb {A} (m : M A) : Prop := forall s, ok_out (fst (m s)).
+Lemma tr_ro {A} (P : st -> Prop) (m : M A) : ro m -> nb m -> tr P m (fun _ s => P s).
+Proof. intros H Hn s HI HP. rewrite (H s). split; [exact HI|]. split; [apply K_refl|]. specialize (Hn s). destruct (fst (m s)); [exact HP|exact Hn]. Qed.
+Lemma nb_ret {A} (a : A) : nb (ret a). Proof. intros s; okf. Qed.
+Lemma nb_failm {A} f : ok_fail f -> nb (@failm A f). Proof. intros H s; exact H. Qed.
+Lemma nb_crash {A} w : bad_site w = false -> nb (@crash A w). Proof. intros H s; exact H. Qed.
+Lemma nb_gets {A} (f : st -> A) : nb (gets f). Proof. intros s; okf. Qed.
+Lemma nb_bind {A B} (m : M A) (k : A -> M B) : nb m -> (forall a, nb (k a)) -> nb (bind m k).
+Proof. intros Hm Hk s. unfold bind. specialize (Hm s). destruct (m s) as [[a|f] s1]; cbn [fst snd] in *; [apply Hk|exact Hm]. Qed.
+Lemma nb_if {A} (b : bool) (m1 m2 : M A) : nb m1 -> nb m2 -> nb (if b then m1 else m2).
+Proof. destruct b; auto. Qed.
+Lemma nb_get_cell id : nb (get_cell id). Proof. intros s. unfold get_cell. destruct (nm_get id (s_cells s)); [okf|reflexivity]. Qed.
+Lemma nb_get_arr id : nb (get_arr id). Proof. intros s. unfold get_arr. destruct (nm_get id (s_arrs s)); [okf|reflexivity]. Qed.
+Lemma nb_get_ctx id : nb (get_ctx id). Proof. intros s. unfold get_ctx. destruct (nm_get id (s_ctxs s)); [okf|reflexivity]. Qed.
 Lemma ro_ret {A} (a : A) : ro (ret a). Proof. intros s; reflexivity. Qed.
 Lemma ro_failm {A} f : ro (@failm A f). Proof. intros s; reflexivity. Qed.
 Lemma ro_gets {A} (f : st -> A) : ro (gets f). Proof. intros s; reflexivity. Qed.
@@ -211,7 +230,7 @@ Proof. intros H s s' HK HF. eapply Forall_impl; [|exact HF]. intros x Hx. eapply
 Lemma tr_get_cell (P : st -> Prop) id :
   tr P (get_cell id) (fun cl s => cellmeta id cl s /\ valok (c_val cl) s /\ payload_kind (c_val cl) = dk (c_type cl) /\ named_ok (c_val cl) (c_type cl)).
 Proof.
-  intros s HI HP. unfold get_cell. destruct (nm_get id (s_cells s)) as [cl|] eqn:E; cbn [fst snd]; (split; [exact HI|]; split; [apply K_refl|]); [|exact I].
+  intros s HI HP. unfold get_cell. destruct (nm_get id (s_cells s)) as [cl|] eqn:E; cbn [fst snd]; (split; [exact HI|]; split; [apply K_refl|]); [|okf].
   split; [exists cl; split; [exact E|apply same_meta_refl]|]. split; [|split; [eapply (i_kind s HI); eauto|eapply (i_name s HI); eauto]]. intros tn c Ev. apply rec_ctx_kind. eapply (i_recval s HI); eauto.
 Qed.
 (* reading an array: its elements may be written *)
@@ -228,7 +247,7 @@ Proof. intros s s' H E. apply (k_arr _ _ H). exact E. Qed.
 Lemma tr_get_arr (P : st -> Prop) id :
   tr P (get_arr id) (fun ar s => Forall (fun e => nonconst e s) (a_elems ar) /\ Forall (fun e => hastype e (a_type ar) s) (a_elems ar) /\ arris id ar s).
 Proof.
-  intros s HI HP. unfold get_arr. destruct (nm_get id (s_arrs s)) as [ar|] eqn:E; cbn [fst snd]; (split; [exact HI|]; split; [apply K_refl|]); [|exact I].
+  intros s HI HP. unfold get_arr. destruct (nm_get id (s_arrs s)) as [ar|] eqn:E; cbn [fst snd]; (split; [exact HI|]; split; [apply K_refl|]); [|okf].
   split; [|split; [|exact E]]; apply Forall_forall; intros e He; destruct (i_elems s HI id ar e E He) as [cl [Ecl [C T]]]; exists cl; [auto|].
   split; [exact Ecl|]. split; [exact T|]. rewrite <- T. eapply Inv_type_named; eauto.
 Qed.
@@ -239,7 +258,7 @@ Proof. intros s s' H R r E1. eapply stable_resok; eauto. Qed.
 Lemma tr_get_ctx (P : st -> Prop) id :
   tr P (get_ctx id) (fun cx s => ctxkind id (x_isrec cx) s /\ (x_isrec cx = true -> Forall (fun nv : str * N => wr (snd nv) s) (x_vars cx)) /\ retok cx s).
 Proof.
-  intros s HI HP. unfold get_ctx. destruct (nm_get id (s_ctxs s)) as [cx|] eqn:E; cbn [fst snd]; (split; [exact HI|]; split; [apply K_refl|]); [|exact I].
+  intros s HI HP. unfold get_ctx. destruct (nm_get id (s_ctxs s)) as [cx|] eqn:E; cbn [fst snd]; (split; [exact HI|]; split; [apply K_refl|]); [|okf].
   split; [exists cx; auto|]. split.
   - intros Hr. apply Forall_forall. intros [nm v] Hin.
     destruct (i_recvars s HI id cx nm v E Hr Hin) as [cl [Ecl Ho]]. exists cl. split; [exact Ecl|]. right. right. exact Ho.
@@ -260,7 +279,7 @@ Proof.
   assert (Ec : s_ctxs s' = s_ctxs s) by reflexivity.
   assert (G : forall j, nm_get j (s_cells s') = if N.eq_dec id j then Some c' else nm_get j (s_cells s)).
   { intros j. unfold s'. cbn. destruct (N.eq_dec id j) as [<-|Hne]; [apply nm_get_put_same|apply nm_get_put_other; exact Hne]. }
-  split; [|split; [|exact I]].
+  split; [|split; [|okf]].
   - destruct HI as [[H1 [H2 H3]] B C D E IK IR IN IRN]. constructor.
     + split; [|split]; [|exact H2|exact H3]. intros j x Ex. rewrite G in Ex. destruct (N.eq_dec id j) as [<-|Hne]; [apply (H1 id c0 E0)|apply (H1 j x Ex)].
     + intros rc cx nm j Erc Hr Hin. destruct (B rc cx nm j Erc Hr Hin) as [cl [Ecl Ho]]. rewrite G. destruct (N.eq_dec id j) as [<-|Hne].
@@ -463,7 +482,7 @@ Proof.
     { intros Hr nm id Hin. rewrite F1 in Hin. destruct (i_recvars s HI c cx nm id E Hr Hin) as [cl H]. exists cl. exact H. }
     { intros r Er. rewrite F3 in Er. eapply Inv_retok; eauto. }
     split; [exact I1|]. split; [exact K1|eapply SP; eauto].
-  - split; [exact HI|]. split; [apply K_refl|exact I].
+  - split; [exact HI|]. split; [apply K_refl|okf].
 Qed.
 (* recording the value of RETURN *)
 Lemma tr_set_retval (P : st -> Prop) c r : stable P -> (forall s, P s -> resok r s) -> tr P (upd_ctx c (ctx_with_retval (Some r))) (fun _ s => P s).
@@ -473,7 +492,7 @@ Proof.
     { intros Hk nm id Hin. cbn in Hin. destruct (i_recvars s HI c cx nm id E Hk Hin) as [cl H]. exists cl. exact H. }
     { intros r0 Er. cbn in Er. inversion Er; subst r0. exact (Hr s HP). }
     split; [exact I1|]. split; [exact K1|eapply SP; eauto].
-  - split; [exact HI|]. split; [apply K_refl|exact I].
+  - split; [exact HI|]. split; [apply K_refl|okf].
 Qed.
 (* entering a variable in a context's table: in a record's context only cells of a record context *)
 Lemma tr_add_var (P : st -> Prop) c name id : stable P ->
@@ -487,7 +506,7 @@ Proof.
       - inversion Hin; subst. eapply Hpre; eauto. }
     { intros r Er. cbn in Er. eapply Inv_retok; eauto. }
     split; [exact I1|]. split; [exact K1|eapply SP; eauto].
-  - split; [exact HI|]. split; [apply K_refl|exact I].
+  - split; [exact HI|]. split; [apply K_refl|okf].
 Qed.
 
 Lemma tr_upd_ctx_gen (P : st -> Prop) c f : stable P -> (forall k, x_isrec (f k) = x_isrec k /\ x_retval (f k) = x_retval k) ->
@@ -499,7 +518,7 @@ Proof.
     { intros Hr nm id Hin. destruct (Hv s cx nm id HP Hr Hin) as [H|H]; [|exact H]. destruct (i_recvars s HI c cx nm id E Hr H) as [cl X]. exists cl. exact X. }
     { intros r Er. rewrite F3 in Er. eapply Inv_retok; eauto. }
     split; [exact I1|]. split; [exact K1|eapply SP; eauto].
-  - split; [exact HI|]. split; [apply K_refl|exact I].
+  - split; [exact HI|]. split; [apply K_refl|okf].
 Qed.
 
 (* ---- loops over lists ---- *)
@@ -524,7 +543,7 @@ Lemma tr_zipM {A B} (P : st -> Prop) (f : A -> B -> M unit) l1 : forall l2, stab
   (forall x y, In x l1 -> tr P (f x y) (fun _ _ => True)) -> tr P (zipM f l1 l2) (fun _ _ => True).
 Proof.
   induction l1 as [|x r IH]; intros l2 SP H; cbn [zipM]; [eapply tr_true; apply tr_ret|].
-  destruct l2 as [|y r2]; [apply tr_failm|].
+  destruct l2 as [|y r2]; [(apply tr_failm; okf)|].
   eapply tr_bind; [exact SP|apply H; left; reflexivity|]. intros u. eapply tr_pre; [|apply IH; [exact SP|intros a b Ha; apply H; right; exact Ha]]. intros s0 [HA _]. exact HA.
 Qed.
 Lemma tr_repeatM {A} (P : st -> Prop) (m : M A) (Q : A -> st -> Prop) k : stable P -> (forall y, stable (Q y)) -> tr P m Q ->
@@ -554,6 +573,10 @@ Ltac stab := repeat first [ assumption | apply stable_retok | apply stable_impl 
 
 Lemma tr_false {A} (P : st -> Prop) (m : M A) (Q : A -> st -> Prop) : (forall s, P s -> False) -> tr P m Q.
 Proof. intros H s _ HP. exfalso. eapply H; eauto. Qed.
+(* a branch that would mean "the cell holds an object of another class than its type says": excluded by the kind clause *)
+Ltac kind_contra Ed Ek :=
+  apply tr_false; let s0 := fresh "s0" in let H0 := fresh "H0" in intros s0 H0; decompose [and] H0;
+  match goal with Hk : payload_kind _ = dk _ |- _ => try rewrite Ed in Hk; try rewrite Ek in Hk; cbn in Hk; discriminate Hk end.
 
 (* ------------------------------------------------------------------ Heap.v: the copy constructor *)
 Definition copy_val_tr (f : nat) : Prop := forall (P : st -> Prop) p, stable P -> (forall s, P s -> valok p s) ->
@@ -571,8 +594,8 @@ Lemma copy_tr : forall f, copy_val_tr f /\ copy_ctx_tr f.
 Proof.
   induction f as [|f [IHv IHc]].
   - split.
-    + intros P p SP HV. destruct p; cbn [copy_val]; try (eapply tr_post; [apply tr_ret|]; intros a0 s0 [-> Hs]; split; [apply valok_nonrec; intros; discriminate|split; reflexivity]). apply tr_failm.
-    + intros P c SP HV. cbn [copy_ctx]. apply tr_failm.
+    + intros P p SP HV. destruct p; cbn [copy_val]; try (eapply tr_post; [apply tr_ret|]; intros a0 s0 [-> Hs]; split; [apply valok_nonrec; intros; discriminate|split; reflexivity]). (apply tr_failm; okf).
+    + intros P c SP HV. cbn [copy_ctx]. (apply tr_failm; okf).
   - split.
     + intros P p SP HV. destruct p as [| | | | | | | |tn c]; cbn [copy_val]; try (eapply tr_post; [apply tr_ret|]; intros a0 s0 [-> Hs]; split; [apply valok_nonrec; intros; discriminate|split; reflexivity]).
       eapply tr_bind; [exact SP|apply IHc; [exact SP|intros s Hs; eapply HV; eauto]|]. intros c'.
@@ -614,7 +637,7 @@ Proof.
           - intros nid s [_ [Hn Ht]]. split; [apply Hn; reflexivity|exact Ht]. }
         intros elems'. apply tr_alloc_arr; [stab| |].
         - intros s [_ HF]. cbn [a_elems a_type]. eapply Forall2_right; [exact HF|]. intros x y Hy. exact Hy.
-        - intros naid. eapply tr_post; [apply tr_ret|]. intros; exact I. }
+        - intros naid. eapply tr_post; [apply tr_ret|]. intros; okf. }
       intros arrs'.
       eapply tr_bind; [stab| |].
       { apply tr_upd_ctx_gen; [stab|intros k; split; reflexivity|]. intros s k nm j [[_ HF] _] _ Hin. right.
@@ -636,10 +659,20 @@ Proof.
   { apply ro_bind; [apply ro_get_ctx|]. intros cx. apply ro_bind; [apply ro_trace_aux|]. intros r. apply ro_ret. }
   specialize (H s). destruct ((cx <- get_ctx c ;; _) s) as [[d|f] s1]; exact H.
 Qed.
+Lemma nb_trace_aux fuel : forall id, nb (trace_aux fuel id).
+Proof. induction fuel as [|f IH]; intros id; cbn [trace_aux]; [apply nb_ret|]. destruct id; [|apply nb_ret]. apply nb_bind; [apply nb_get_ctx|]. intros c. apply nb_bind; [apply IH|]. intros r. apply nb_ret. Qed.
+Lemma nb_runtime_error_cls {A} cls t c : nb (@runtime_error_cls A cls t c).
+Proof.
+  intros s. unfold runtime_error_cls.
+  assert (H : nb (cx <- get_ctx c ;; rest <- trace_aux (S (x_depth cx)) (x_parent cx) ;; ret (mkDiag DRuntime (tline t) (tcol t) cls ((x_name cx, tline t, tcol t) :: rest)))).
+  { apply nb_bind; [apply nb_get_ctx|]. intros cx. apply nb_bind; [apply nb_trace_aux|]. intros r. apply nb_ret. }
+  specialize (H s). destruct ((cx <- get_ctx c ;; _) s) as [[d|f] s1]; cbn [fst] in *; [exact I|exact H].
+Qed.
 Lemma tr_error_cls {A} (P : st -> Prop) cls t c (Q : A -> st -> Prop) : tr P (runtime_error_cls cls t c) Q.
 Proof.
   intros s HI HP. pose proof (@ro_runtime_error_cls A cls t c s) as H. rewrite H.
-  split; [exact HI|]. split; [apply K_refl|]. unfold runtime_error_cls. destruct ((cx <- get_ctx c ;; _) s) as [[d|f] s1]; exact I.
+  split; [exact HI|]. split; [apply K_refl|]. pose proof (@nb_runtime_error_cls A cls t c s) as N.
+  unfold runtime_error_cls in *. destruct ((cx <- get_ctx c ;; _) s) as [[d|f] s1]; cbn [fst] in *; exact N.
 Qed.
 Lemma tr_rt_error {A} (P : st -> Prop) t c (Q : A -> st -> Prop) : tr P (rt_error t c) Q.
 Proof. apply tr_error_cls. Qed.
@@ -665,6 +698,29 @@ Proof.
     apply ro_if; [apply ro_ret|]. apply ro_if; [|apply ro_ret]. destruct (c_val d); try apply ro_crash. destruct (c_val s0); try apply ro_crash. apply IH.
   - intros ok. apply ro_if; [apply ro_ret|]. apply ro_all2M. intros da sa. apply ro_bind; [apply ro_get_arr|]. intros a1. apply ro_bind; [apply ro_get_arr|]. intros a2.
     apply ro_arr_layout. exact IH.
+Qed.
+
+Lemma nb_all2M {A B} (f : A -> B -> M bool) l1 : forall l2, (forall x y, nb (f x y)) -> nb (all2M f l1 l2).
+Proof.
+  induction l1 as [|x r IH]; intros l2 H; cbn [all2M]; [apply nb_ret|]. destruct l2 as [|y r2]; [apply nb_ret|].
+  apply nb_bind; [apply H|]. intros ok. destruct ok; [apply IH; exact H|apply nb_ret].
+Qed.
+Lemma nb_rec_pair_layout sl e1 e2 : (forall x y, nb (sl x y)) -> nb (rec_pair_layout sl e1 e2).
+Proof.
+  intros H. unfold rec_pair_layout. apply nb_bind; [apply nb_get_cell|]. intros c1. apply nb_bind; [apply nb_get_cell|]. intros c2.
+  destruct (c_val c1); try (apply nb_crash; reflexivity). destruct (c_val c2); try (apply nb_crash; reflexivity). apply H.
+Qed.
+Lemma nb_arr_layout sl a1 a2 : (forall x y, nb (sl x y)) -> nb (arr_layout sl a1 a2).
+Proof. intros H. unfold arr_layout. repeat apply nb_if; try apply nb_ret. apply nb_all2M. intros x y. apply nb_rec_pair_layout. exact H. Qed.
+Lemma nb_same_layout fuel : forall a b, nb (same_layout fuel a b).
+Proof.
+  induction fuel as [|f IH]; intros a b; cbn [same_layout]; [apply nb_failm; exact I|].
+  apply nb_bind; [apply nb_get_ctx|]. intros dx. apply nb_bind; [apply nb_get_ctx|]. intros sx. apply nb_if; [apply nb_ret|].
+  apply nb_bind.
+  - apply nb_all2M. intros dv sv. apply nb_bind; [apply nb_get_cell|]. intros d. apply nb_bind; [apply nb_get_cell|]. intros s0.
+    apply nb_if; [apply nb_ret|]. apply nb_if; [|apply nb_ret]. destruct (c_val d); try (apply nb_crash; reflexivity). destruct (c_val s0); try (apply nb_crash; reflexivity). apply IH.
+  - intros ok. apply nb_if; [apply nb_ret|]. apply nb_all2M. intros da sa. apply nb_bind; [apply nb_get_arr|]. intros a1. apply nb_bind; [apply nb_get_arr|]. intros a2.
+    apply nb_arr_layout. exact IH.
 Qed.
 
 (* ------------------------------------------------------------------ what a successful layout check says *)
@@ -779,7 +835,7 @@ Lemma tr_zipM_pairs {A B} (P : st -> Prop) (f : A -> B -> M unit) l1 : forall l2
   (forall x y, In (x, y) (combine l1 l2) -> tr P (f x y) (fun _ _ => True)) -> tr P (zipM f l1 l2) (fun _ _ => True).
 Proof.
   induction l1 as [|x r IH]; intros l2 SP H; cbn [zipM]; [eapply tr_true; apply tr_ret|].
-  destruct l2 as [|y r2]; [apply tr_failm|].
+  destruct l2 as [|y r2]; [(apply tr_failm; okf)|].
   eapply tr_bind; [exact SP|apply H; left; reflexivity|]. intros u. eapply tr_pre; [|apply IH; [exact SP|intros a b Ha; apply H; right; exact Ha]]. intros s0 [HA _]. exact HA.
 Qed.
 
@@ -814,19 +870,19 @@ Qed.
 Lemma tr_composite_assign (P : st -> Prop) f tn0 dc tn sc : stable P -> comp_tr f -> (forall s, P s -> ctxkind dc true s) ->
   tr P (composite_assign (copy_var_data f) f tn0 dc tn sc) (fun _ _ => True).
 Proof.
-  intros SP H HV. unfold composite_assign. destruct (str_eqb tn0 tn); [|apply tr_failm]. apply H; assumption.
+  intros SP H HV. unfold composite_assign. destruct (str_eqb tn0 tn); [|(apply tr_failm; okf)]. apply H; assumption.
 Qed.
 
 Lemma set_copy_both : forall f, set_copy_tr f /\ comp_tr f.
 Proof.
   induction f as [|f [IHs IHc]].
-  - split; [intros P a b SP HV; cbn [set_copy]; apply tr_failm|]. intros P dc sc SP HV s0 HI HP. cbn [same_layout]. unfold bind, failm. cbn [fst snd]. split; [exact HI|]. split; [apply K_refl|exact I].
+  - split; [intros P a b SP HV; cbn [set_copy]; (apply tr_failm; okf)|]. intros P dc sc SP HV s0 HI HP. cbn [same_layout]. unfold bind, failm. cbn [fst snd]. split; [exact HI|]. split; [apply K_refl|okf].
   - split.
     + intros P dst src SP HV. cbn [set_copy]. eapply tr_bind; [exact SP|apply tr_get_cell|]. intros d.
       assert (ELSE : tr (fun s => P s /\ cellmeta dst d s /\ valok (c_val d) s /\ payload_kind (c_val d) = dk (c_type d) /\ named_ok (c_val d) (c_type d))
                         (if dk_eqb (dk (c_type d)) (payload_kind src) then v' <- copy_val f src ;; set_cell_val dst v' else crash "Variable::set: payload reinterpreted as another type")
                         (fun _ _ => True)).
-      { destruct (dk_eqb (dk (c_type d)) (payload_kind src)) eqn:Edk; [|apply tr_failm]. apply dk_eqb_eq in Edk.
+      { destruct (dk_eqb (dk (c_type d)) (payload_kind src)) eqn:Edk; [|(apply tr_failm; okf)]. apply dk_eqb_eq in Edk.
         eapply tr_bind; [stab3|apply (proj1 (copy_tr f)); [stab3|intros s [Hs _]; apply (HV s Hs)]|]. intros v'.
         apply tr_set_cell_val. intros s [[Hs [Hm _]] [Hv [Hk Hp]]]. destruct (HV s Hs) as [Hw [_ [cl [Ecl Hnf]]]]. split; [exact Hw|]. split; [exact Hv|].
         destruct Hm as [c' [E' [_ [M2 _]]]]. assert (c' = cl) by congruence. subst c'.
@@ -836,7 +892,7 @@ Proof.
       apply tr_composite_assign; [stab3|exact IHc|]. intros s [_ [_ [Hv _]]]. eapply Hv. exact Ed.
     + intros P dc sc SP HV s HI HP. unfold bind.
       pose proof (ro_same_layout (S f) dc sc s) as R. destruct (same_layout (S f) dc sc s) as [[ok|e] s1] eqn:E; cbn [fst snd] in R |- *; subst s1.
-      2:{ split; [exact HI|]. split; [apply K_refl|exact I]. }
+      2:{ split; [exact HI|]. split; [apply K_refl|]. pose proof (nb_same_layout (S f) dc sc s) as Nb. rewrite E in Nb. exact Nb. }
       destruct ok; [|exact (tr_rt_error P err_token dc (fun _ _ => True) s HI HP)].
       assert (Et : fst (same_layout (S f) dc sc s) = Ok true) by (rewrite E; reflexivity).
       destruct (same_layout_true f dc sc s Et) as [dx [sx [Edx [Esx [HVars HArrs]]]]].
@@ -895,29 +951,29 @@ Proof.
   assert (SET : forall p (Q : st -> Prop), (forall tn c, p <> PRec tn c) -> payload_kind p = dk (c_type d) -> named_ok p (c_type d) -> (forall s, Q s -> P s /\ cellmeta dst d s) ->
                 tr Q (set_cell_val dst p) (fun _ _ => True)).
   { intros p Q Hp Hk Hn HQ. apply tr_set_cell_val. intros s Hq. destruct (HQ s Hq) as [Hs Hm]. split; [apply (HV s Hs)|]. split; [apply valok_nonrec; exact Hp|eapply cellmeta_fits; eauto]. }
-  destruct (dk (c_type d)) eqn:Ek; try apply tr_failm;
-    (destruct (r_val v) as [p|]; [|apply tr_failm]); destruct p; try apply tr_failm; try (apply SET; [intros; discriminate|reflexivity|apply named_ok_prim; reflexivity|intros s0 H0; tauto]).
-  - destruct (c_val d) eqn:Ed; try apply tr_failm. destruct (str_eqb tn0 tn); [|apply tr_failm].
+  destruct (dk (c_type d)) eqn:Ek; try (apply tr_failm; okf);
+    (destruct (r_val v) as [p|]; [|(apply tr_failm; okf)]); destruct p; try (apply tr_failm; okf); try (apply SET; [intros; discriminate|reflexivity|apply named_ok_prim; reflexivity|intros s0 H0; tauto]).
+  - destruct (c_val d) eqn:Ed; try (kind_contra Ed Ek). destruct (str_eqb tn0 tn); [|(apply tr_failm; okf)].
     apply tr_set_cell_val. intros s [Hs [Hm [_ [_ Hn]]]]. split; [apply (HV s Hs)|]. split; [apply valok_nonrec; intros; discriminate|].
     eapply cellmeta_fits; [exact Hm|cbn; congruence|]. intros t0 Ht. apply Hn. first [rewrite Ed|idtac]. cbn in *. exact Ht.
-  - destruct (c_val d) eqn:Ed; try apply tr_failm. destruct (str_eqb tn0 tn); [|apply tr_failm].
+  - destruct (c_val d) eqn:Ed; try (kind_contra Ed Ek). destruct (str_eqb tn0 tn); [|(apply tr_failm; okf)].
     apply tr_set_cell_val. intros s [Hs [Hm [_ [_ Hn]]]]. split; [apply (HV s Hs)|]. split; [apply valok_nonrec; intros; discriminate|].
     eapply cellmeta_fits; [exact Hm|cbn; congruence|]. intros t0 Ht. apply Hn. first [rewrite Ed|idtac]. cbn in *. exact Ht.
-  - destruct (c_val d) as [| | | | | | | |tn0 dc] eqn:Ed; try apply tr_failm.
+  - destruct (c_val d) as [| | | | | | | |tn0 dc] eqn:Ed; try (kind_contra Ed Ek).
     apply tr_composite_assign; [stab3|apply (proj2 (set_copy_both fuel))|]. intros s [_ [_ [Hv _]]]. eapply Hv. first [exact Ed|reflexivity].
 Qed.
 
 Lemma tr_store_tree : forall f (P : st -> Prop) id t, stable P -> (forall s, P s -> wr id s) -> tr P (store_tree f id t) (fun _ _ => True).
 Proof.
-  induction f as [|f IH]; intros P id t SP HV; cbn [store_tree]; [apply tr_failm|].
+  induction f as [|f IH]; intros P id t SP HV; cbn [store_tree]; [(apply tr_failm; okf)|].
   eapply tr_bind; [exact SP|apply tr_get_cell|]. intros cl.
   assert (SET : forall p, (forall tn c, p <> PRec tn c) -> payload_kind p = payload_kind (c_val cl) -> pname p = pname (c_val cl) ->
                 tr (fun s => P s /\ cellmeta id cl s /\ valok (c_val cl) s /\ payload_kind (c_val cl) = dk (c_type cl) /\ named_ok (c_val cl) (c_type cl)) (set_cell_val id p) (fun _ _ => True)).
   { intros p Hp Hk Hpn. apply tr_set_cell_val. intros s [Hs [Hm [_ [Hk' Hn']]]]. split; [apply (HV s Hs)|]. split; [apply valok_nonrec; exact Hp|].
     eapply cellmeta_fits; [exact Hm|congruence|eapply named_ok_pname; eauto]. }
-  destruct t; destruct (c_val cl) as [| | | | | | | |tn0 rc] eqn:Ed; try apply tr_failm;
+  destruct t; destruct (c_val cl) as [| | | | | | | |tn0 rc] eqn:Ed; try (apply tr_failm; okf);
     try (apply SET; [intros; discriminate|first [rewrite Ed|idtac]; reflexivity|first [rewrite Ed|idtac]; reflexivity]); try (eapply tr_true; apply tr_ret).
-  - destruct (str_eqb tn tn0); [|apply tr_failm]. apply SET; [intros; discriminate|first [rewrite Ed|idtac]; reflexivity|first [rewrite Ed|idtac]; reflexivity].
+  - destruct (str_eqb tn tn0); [|(apply tr_failm; okf)]. apply SET; [intros; discriminate|first [rewrite Ed|idtac]; reflexivity|first [rewrite Ed|idtac]; reflexivity].
   - eapply tr_bind; [stab3|apply tr_get_ctx|]. intros cx.
     destruct (x_isrec cx) eqn:Hr.
     2:{ apply tr_false. intros s [[_ [_ [Hv _]]] [Hk _]]. pose proof (ctxkind_unique _ _ _ _ Hk (Hv _ _ ltac:(first [exact Ed|reflexivity]))) as X. congruence. }
@@ -929,27 +985,38 @@ Qed.
 
 
 (* ------------------------------------------------------------------ computations that leave the heap alone *)
-Definition hn {A} (m : M A) : Prop := forall s, heap_same s (snd (m s)).
+(* ... and do not end in the excluded abort *)
+Definition hn {A} (m : M A) : Prop := forall s, heap_same s (snd (m s)) /\ ok_out (fst (m s)).
 Lemma heap_same_refl s : heap_same s s. Proof. repeat split. Qed.
 Lemma heap_same_trans a b c : heap_same a b -> heap_same b c -> heap_same a c.
 Proof. unfold heap_same. intros [A1 [A2 [A3 A4]]] [B1 [B2 [B3 B4]]]. repeat split; congruence. Qed.
-Lemma hn_ro {A} (m : M A) : ro m -> hn m.
-Proof. intros H s. rewrite H. apply heap_same_refl. Qed.
-Lemma hn_ret {A} (a : A) : hn (ret a). Proof. apply hn_ro, ro_ret. Qed.
-Lemma hn_failm {A} f : hn (@failm A f). Proof. apply hn_ro, ro_failm. Qed.
+Lemma hn_ro {A} (m : M A) : ro m -> nb m -> hn m.
+Proof. intros H N s. rewrite H. split; [apply heap_same_refl|apply N]. Qed.
+Lemma hn_ret {A} (a : A) : hn (ret a). Proof. apply hn_ro; [apply ro_ret|apply nb_ret]. Qed.
+Lemma hn_failm {A} f : ok_fail f -> hn (@failm A f). Proof. intros H. apply hn_ro; [apply ro_failm|apply nb_failm; exact H]. Qed.
+Lemma hn_gets {A} (f : st -> A) : hn (gets f). Proof. apply hn_ro; [apply ro_gets|apply nb_gets]. Qed.
+Lemma hn_get_cell id : hn (get_cell id). Proof. apply hn_ro; [apply ro_get_cell|apply nb_get_cell]. Qed.
+Lemma hn_get_arr id : hn (get_arr id). Proof. apply hn_ro; [apply ro_get_arr|apply nb_get_arr]. Qed.
+Lemma hn_get_ctx id : hn (get_ctx id). Proof. apply hn_ro; [apply ro_get_ctx|apply nb_get_ctx]. Qed.
+Lemma hn_runtime_error_cls {A} cls t c : hn (@runtime_error_cls A cls t c). Proof. apply hn_ro; [apply ro_runtime_error_cls|apply nb_runtime_error_cls]. Qed.
+Lemma hn_same_layout fuel a b : hn (same_layout fuel a b). Proof. apply hn_ro; [apply ro_same_layout|apply nb_same_layout]. Qed.
 Lemma hn_bind {A B} (m : M A) (k : A -> M B) : hn m -> (forall a, hn (k a)) -> hn (bind m k).
-Proof. intros Hm Hk s. unfold bind. specialize (Hm s). destruct (m s) as [[a|f] s1]; cbn [snd] in *; [eapply heap_same_trans; [exact Hm|apply Hk]|exact Hm]. Qed.
+Proof.
+  intros Hm Hk s. unfold bind. destruct (Hm s) as [H1 H2]. destruct (m s) as [[a|f] s1]; cbn [fst snd] in *.
+  - destruct (Hk a s1) as [G1 G2]. split; [eapply heap_same_trans; eauto|exact G2].
+  - split; assumption.
+Qed.
 Lemma hn_modify f : (forall s, heap_same s (f s)) -> hn (modify f).
-Proof. intros H s. apply H. Qed.
+Proof. intros H s. split; [apply H|exact I]. Qed.
 Lemma hn_catch {A} (m : M A) h : hn m -> (forall f m', h f = Some m' -> hn m') -> hn (catch m h).
 Proof.
-  intros Hm Hh s. unfold catch. specialize (Hm s). destruct (m s) as [[a|f] s1]; cbn [snd] in *; [exact Hm|].
-  destruct (h f) as [m'|] eqn:E; [eapply heap_same_trans; [exact Hm|apply (Hh f m' E)]|exact Hm].
+  intros Hm Hh s. unfold catch. destruct (Hm s) as [H1 H2]. destruct (m s) as [[a|f] s1]; cbn [fst snd] in *; [split; assumption|].
+  destruct (h f) as [m'|] eqn:E; [|split; assumption]. destruct (Hh f m' E s1) as [G1 G2]. split; [eapply heap_same_trans; eauto|exact G2].
 Qed.
 Lemma tr_hn {A} (P : st -> Prop) (m : M A) : stable P -> hn m -> tr P m (fun _ s => P s).
 Proof.
-  intros SP H s HI HP. pose proof (H s) as Hs. pose proof (K_heap_same _ _ Hs) as HK.
-  split; [eapply Inv_heap_same; eauto|]. split; [exact HK|]. destruct (fst (m s)); [eapply SP; eauto|exact I].
+  intros SP H s HI HP. destruct (H s) as [Hs Ho]. pose proof (K_heap_same _ _ Hs) as HK.
+  split; [eapply Inv_heap_same; eauto|]. split; [exact HK|]. destruct (fst (m s)); [eapply SP; eauto|exact Ho].
 Qed.
 Lemma tr_hn_true {A} (P : st -> Prop) (m : M A) : stable P -> hn m -> tr P m (fun _ _ => True).
 Proof. intros SP H. eapply tr_true. apply tr_hn; assumption. Qed.
@@ -957,7 +1024,7 @@ Proof. intros SP H. eapply tr_true. apply tr_hn; assumption. Qed.
 Ltac head_of t := match t with ?f _ => head_of f | _ => t end.
 Ltac hnt known :=
   repeat first
-    [ apply hn_ret | apply hn_failm | (apply hn_ro; first [apply ro_gets | apply ro_get_cell | apply ro_get_arr | apply ro_get_ctx | apply ro_runtime_error_cls | apply ro_same_layout | apply ro_crash])
+    [ apply hn_ret | (apply hn_failm; okf) | apply hn_gets | apply hn_get_cell | apply hn_get_arr | apply hn_get_ctx | apply hn_runtime_error_cls | apply hn_same_layout
     | known
     | match goal with
       | |- hn (bind _ _) => apply hn_bind; [ | intros ? ]
@@ -988,7 +1055,7 @@ Proof.
 Qed.
 
 
-Lemma tr_catch_cls {A} (P : st -> Prop) (m : M A) (Q : A -> st -> Prop) want h : stable P -> tr P m Q -> (forall f, tr P (h f) Q) -> tr P (catch_cls m want h) Q.
+Lemma tr_catch_cls {A} (P : st -> Prop) (m : M A) (Q : A -> st -> Prop) want h : stable P -> tr P m Q -> (forall d, tr P (h (FErr d)) Q) -> tr P (catch_cls m want h) Q.
 Proof.
   intros SP Hm Hh. unfold catch_cls. apply tr_catch; [exact SP|exact Hm|]. intros f m' E.
   destruct f; try discriminate. destruct (want (d_cls d)); [|discriminate]. inversion E; subst. apply Hh.
@@ -1004,22 +1071,22 @@ Proof.
 Qed.
 Lemma tr_ret_bind {A B} (P : st -> Prop) (x : A) (k : A -> M B) (R : B -> st -> Prop) : tr P (k x) R -> tr P (bind (ret x) k) R.
 Proof. intros H s HI HP. exact (H s HI HP). Qed.
-Lemma tr_fail_bind {A B} (P : st -> Prop) f (k : A -> M B) (R : B -> st -> Prop) : tr P (bind (failm f) k) R.
-Proof. intros s HI HP. cbn. split; [exact HI|]. split; [apply K_refl|exact I]. Qed.
+Lemma tr_fail_bind {A B} (P : st -> Prop) f (k : A -> M B) (R : B -> st -> Prop) : ok_fail f -> tr P (bind (failm f) k) R.
+Proof. intros Hf s HI HP. cbn. split; [exact HI|]. split; [apply K_refl|exact Hf]. Qed.
 Lemma tr_error_bind {A B} (P : st -> Prop) cls t c (k : A -> M B) (R : B -> st -> Prop) : tr P (bind (runtime_error_cls cls t c) k) R.
 Proof.
-  intros s HI HP. pose proof (@ro_runtime_error_cls A cls t c s) as H. unfold bind.
-  unfold runtime_error_cls in *. destruct ((cx <- get_ctx c ;; _) s) as [[d|f] s1]; cbn [fst snd] in *; subst; (split; [exact HI|]; split; [apply K_refl|exact I]).
+  intros s HI HP. pose proof (@ro_runtime_error_cls A cls t c s) as H. pose proof (@nb_runtime_error_cls A cls t c s) as N. unfold bind.
+  unfold runtime_error_cls in *. destruct ((cx <- get_ctx c ;; _) s) as [[d|f] s1]; cbn [fst snd] in *; subst; (split; [exact HI|]; split; [apply K_refl|exact N]).
 Qed.
 
 Lemma tr_bind_catch_cls {A B} (P : st -> Prop) (m : M A) want h (k : A -> M B) (R : B -> st -> Prop) : stable P ->
-  tr P (bind m k) R -> (forall f, tr P (bind (h f) k) R) -> tr P (bind (catch_cls m want h) k) R.
+  tr P (bind m k) R -> (forall d, tr P (bind (h (FErr d)) k) R) -> tr P (bind (catch_cls m want h) k) R.
 Proof.
   intros SP Hm Hh s HI HP. specialize (Hm s HI HP). unfold bind, catch_cls, catch in *.
   destruct (m s) as [[a|f] s1]; cbn [fst snd] in *; [exact Hm|].
-  destruct Hm as [I1 [K1 _]].
-  destruct f; try (split; [exact I1|]; split; [exact K1|exact I]).
+  destruct Hm as [I1 [K1 O1]].
+  destruct f; try (split; [exact I1|]; split; [exact K1|exact O1]).
   destruct (want (d_cls d)); [|split; [exact I1|]; split; [exact K1|exact I]].
-  destruct (Hh (FErr d) s1 I1 (SP _ _ K1 HP)) as [I2 [K2 Q2]]. unfold bind in *.
+  destruct (Hh d s1 I1 (SP _ _ K1 HP)) as [I2 [K2 Q2]]. unfold bind in *.
   split; [exact I2|]. split; [eapply K_trans; eauto|exact Q2].
 Qed.
